@@ -106,6 +106,27 @@ PROPS = {
                        "I-JSON start/end/step/index; no unrolling, no bound.",
         "assumptions": COMMON_ASSUME,
     },
+    "C14": {
+        "level": "proof",
+        "explanation": "PROVED (Verus, unbounded): the real body of `impl Queryable for Value :: extension_custom` (src/query/queryable.rs) meets, for EVERY name and EVERY list of argument "
+                       "values, the set-membership reading of the property (contracts/value_world.rs::c14_spec): with exactly two arguments and an array where one is required, "
+                       "in(x, L) <=> some element of L equals x; nin = its negation; any_of(A, B) <=> some element of A equals some element of B; none_of = its negation; "
+                       "subset_of(A, B) <=> every element of A equals some element of B (so [] is a subset of anything: lemma_c14_laws); in every other case (missing or surplus argument, "
+                       "non-array, unknown name) the result is null. The type serde_json::Value is declared opaque in that world: its Clone, PartialEq (`equals` = the data type's own "
+                       "equality, abstract kernel value_eq), as_array, From<bool> and Null are assumed contracts on the dependency. PROVED as well: `custom` (src/query/test_function.rs) evaluates "
+                       "every argument on the current node and hands the VALUES over in written order - a value owned, a node borrowed, an argument that selects nothing not at all (so a missing "
+                       "node makes the argument count differ from two: null); TestFunction::apply routes extension names there; FilterAtom::process reads a function result as a test "
+                       "(true iff as_bool == Some(true): null is false, not an error) and negates it under `!`; js_path_process returns Ok. BOUNDED (native): the function itself on all pairs of a "
+                       "35-value menu (nested, empty, non-arrays) with 0-3 arguments; end to end over ASTs and through the parser (missing nodes, literals, logical expressions as arguments).",
+        "assumptions": COMMON_ASSUME + ["serde_json::Value is opaque in Verus (single-file mode cannot link the crate): Value::as_array, Value == Value, From<bool> for Value, Value::Null and Clone are assumed "
+                                        "contracts over uninterpreted spec functions; `equals` in the property is read as the data type's own PartialEq (so 1 and 1.0 are different elements for these functions, "
+                                        "unlike for `==` in a filter; recorded as an observation in DESIGN.md 11.8)",
+                                        "extension-function arguments are values (wf_fn(Custom): literals, singular queries, value-typed functions, logical expressions); a non-singular query or a LogicalType "
+                                        "function result as argument is outside the claim",
+                                        "rule E11: the slice pattern `[a, b]` matches exactly the slices of length 2 (Rust reference); two &str with the same characters are equal (axiom_str_ext)",
+                                        "that an unknown function name parses to TestFunction::Custom with a logical result (src/parser/model.rs, TestFunction::try_new: slice patterns over pest output) is covered "
+                                        "only by the bounded through-the-parser group text_ext"],
+    },
     "C15": {
         "level": "other",
         "verus_policy": "undecided",
@@ -160,6 +181,8 @@ STOP_AT = {
     "C04": {"TestFunction::process", "process_index", "process_key"},
     "C05": {"Comparison::process", "TestFunction::process", "Vec<Segment>::process", "JpQuery::process"},
     "C10": {"Test::process", "Filter::process", "Comparison::process", "SingularQuery::process", "Literal::process"},
+    # what an argument evaluates to is C10 / C05 / C04 / C01; C14 is about the hand-over, the five functions and the reading of their result as a test
+    "C14": {"FnArg::process", "Filter::process", "Comparison::process", "Vec<Segment>::process", "JpQuery::process", "SingularQuery::process", "Literal::process", "length", "count", "value", "regex"},
 }
 
 
